@@ -231,14 +231,15 @@ func (collection *linkCollectionImpl) CheckIntegrity(ctx MutateContext, fix bool
 
 	for idCursor := collection.field.GetStore().IterateValidIds(tx, ast.BoolNodeTrue); idCursor.IsValid(); idCursor.Next() {
 		id := idCursor.Current()
+		// dangling links are removed after the loop: deleting from the bucket under the cursor makes
+		// Next skip the following entry when the bucket was already modified in this transaction
+		var dangling [][]byte
 		for linkCursor := collection.IterateLinks(tx, id); linkCursor.IsValid(); linkCursor.Next() {
 			linkId := linkCursor.Current()
 			linkValid := collection.otherField.GetStore().IsEntityPresent(tx, string(linkId))
 			if !linkValid {
 				if fix {
-					if _, err := collection.RemoveLink(tx, id, linkId); err != nil {
-						return err
-					}
+					dangling = append(dangling, clone(linkId))
 				}
 				err := errors.Errorf("%v %v references %v %v, which doesn't exist",
 					collection.field.GetStore().GetSingularEntityType(), string(id),
@@ -254,6 +255,11 @@ func (collection *linkCollectionImpl) CheckIntegrity(ctx MutateContext, fix bool
 					collection.field.GetStore().GetSingularEntityType(), string(id),
 					collection.otherField.GetStore().GetSingularEntityType(), string(linkId))
 				errorSink(err, fix)
+			}
+		}
+		for _, linkId := range dangling {
+			if _, err := collection.RemoveLink(tx, id, linkId); err != nil {
+				return err
 			}
 		}
 	}
